@@ -5,6 +5,11 @@ ROOT = os.path.dirname(os.path.dirname(os.path.abspath(__file__)))
 ALL = ["C%02d" % i for i in range(1, 21)]
 
 CHECKS = {
+ "C07": dict(
+   technique="TLA+ Borrow spec: loans with forward taint (the property's 'still used later'), shared/mutable/copied/call-returned references, temporary borrows, blocks and twice-judged loop bodies, three-valued verdict and prescribed output; TLC explores the abstract loan-state graph and emits one program per transition; RefEscape spec for returned references; programs compiled (and legal ones run) by the real compiler",
+   category="model_checking",
+   text="Transition coverage of the loan-state graph for event sequences up to length 4 (quick, stratified by spec-level class) / 5 (thorough, ~90k programs) over 5 places and 2 references, each with and without an epilogue using every live reference: illegal => rejected, legal => accepted (borrow-class rejections count) and output equals the specification's; all 18 return-reference shapes.",
+   note="Conflicts between different elements of one array are 'either'; a legal program rejected without a borrowing diagnostic is void; one known finding class (call-returned references) is excluded as a class."),
  "C06": dict(
    technique="TLA+ Mutability spec (Immutable/Mutates/MustReject with applicability of paths and forms); TLC enumerates the full product kind x path x form x context; every case and its mutable twin (control) compiled by the real front end",
    category="model_checking",
